@@ -44,6 +44,10 @@ RULES = {
     'C04.l': 'the replication table names the databases the handler snapshotted: in its Snapshot arm the session\'s selected database is '
              'used only on the branch where the request\'s own list of names is empty (the handler\'s rule) — otherwise the primary '
              'snapshots the named databases and the secondaries another one',
+    'C04.m': 'a database name is taken once: every insert into Databases.map is decided by a lookup of the same map made under the SAME write '
+             'guard (the lookup is dominated by the write acquisition that the insert uses) — an existence test under a read lock taken '
+             'earlier lets two concurrent create-db of one name both succeed; both are replicated, the secondaries keep the first and the '
+             'primary the second',
 }
 
 WRITE_KINDS = ('map-write', 'map-bulk-write', 'dbs-write', 'guarded-vec-push')
@@ -63,6 +67,7 @@ def run(ck, m):
     one_key_per_message(ck, m)
     refusal_not_replicated(ck, m)
     snapshot_names_precedence(ck, m)
+    database_created_once(ck, m)
 
 
 def _run(ck, m):
@@ -619,3 +624,44 @@ def snapshot_names_precedence(ck, m):
           'db_names.is_empty(): %d, uses of the selected database: %s): `snapshot false B` from a session that has A selected snapshots B '
           'on the primary and A on every secondary — B stays unsaved there and the nodes\' disk states part' % (len(empties), [rb.loc(u) for u in uses]),
           rb.loc(uses[0]) if uses else '%s:%s' % (rb.file, rb.line))
+
+
+
+def database_created_once(ck, m):
+    """C04.m — see RULES"""
+    from nl.locks import backward_slice, lock_id_of
+    P = m.prog
+    DM = 'std::collections::HashMap::<std::string::String, nundb::bo::Database>::'
+    n = 0
+    for b in P.user_bodies():
+        if b.id.startswith(('nundb::client::', 'nundb::command_line::')):
+            continue
+        for bi, t in b.calls():
+            if not (t['f'].get('dargs', '').startswith(DM + 'insert')):
+                continue
+            # the write acquisition the insert goes through
+            wacq = [r[1] for r in origins(b, t['args'][0]) if r[0] == 'call' and callee_decl(b.term(r[1])) == 'std::sync::RwLock::write'
+                    and 'Databases.map' in lock_id_of(b, b.term(r[1])['args'][0])]
+            if not wacq:
+                continue            # a map under construction (Databases::new), not the shared one
+            n += 1
+            looks = [x for x, t2 in b.calls() if t2['f'].get('dargs', '').startswith(DM) and callee_decl(t2).split('::')[-1] in ('get', 'contains_key', 'entry')
+                     and b.dominates(x, bi) and any(b.dominates(w, x) for w in wacq)]
+            decided = False
+            for sb_ in b.reachable():
+                ts = b.term(sb_)
+                if ts['k'] != 'switch' or not b.dominates(sb_, bi):
+                    continue
+                succ = [x for x in b.succ(sb_) if not b.blocks[x].get('cleanup')]
+                if all(bi in b.reach_from([x], include_start=True) for x in succ):
+                    continue
+                calls, _p = backward_slice(b, ts['o'])
+                if calls & set(looks):
+                    decided = True
+            ck.ob('C04.m', short(b.id), 'insert-decided-under-its-own-write-guard', decided,
+                  'the insert is decided by a lookup made under the write guard it uses' if decided else
+                  '%s inserts into Databases.map without a lookup of the map under the same write guard deciding it (an existence test made '
+                  'earlier, under a read lock, does not count): two sessions creating one name at the same moment both pass the test, the second '
+                  'insert replaces the first database, both answer Ok and both are replicated — the secondaries keep the first (they refuse the '
+                  'second), so the database token differs between the nodes for good' % short(b.id), b.loc(bi))
+    ck.floor('C04.m', n, 1, 'inserts into the shared Databases.map')
